@@ -13,73 +13,73 @@ BUILT = set(["C%02d" % i for i in range(1, 18)])
 # id -> (category, technique, level text, extra note, design ref)
 P = {
  "C01": ("exploration",
-         "differential testing against a bit-slice reference encoder: complete (language,size,position,index) pairwise table + rapid structured entropies",
-         "NewMnemonicByEntropy is compared byte-for-byte with an independent encoder over golden lists on a table that executes every (language, size, word position, 11-bit index) tuple and every first-SHA-256-byte value at every checksum width, plus tens of thousands (thorough: millions) of structured random entropies. Pairwise-complete, not exhaustive over 2^128..2^256 entropies.",
+         "differential testing against a bit-slice reference encoder: complete (language,size,position,index) pairwise table + rapid structured entropies (incl. text-like bytes and literals harvested from the source) + concurrent and after-validation variants",
+         "NewMnemonicByEntropy is compared byte-for-byte with an independent encoder over golden lists on a table that executes every (language, size, word position, 11-bit index) tuple and every first-SHA-256-byte value at every checksum width, on the extreme-byte-length sentences of every list, and on structured random entropies (leading zero bytes, bit runs, text-like bytes, source literals); each case also re-checks the returned sentence after a later call and a refilled, reused buffer; the table is repeated after validations and under 8 concurrent callers. Pairwise-complete, not exhaustive over 2^128..2^256 entropies.",
          "", "6/C01"),
  "C02": ("exploration",
-         "round-trip property (generate -> validate) over the pairwise table, leading-zero-byte sweeps, scripted and default randomness sources, and reference-assembled valid sentences",
-         "Every generated mnemonic (by entropy, by NewMnemonic under a scripted source and under the default source) and every sentence assembled from golden words with a reference-solved checksum must be accepted by CheckMnemonic and IsMnemonicValid; leading zero bytes k=0..size are enumerated for every size and language.",
+         "round-trip property (generate -> validate) over the pairwise table, leading-zero-byte sweeps, extreme-length sentences, scripted and default randomness sources, reference-assembled valid sentences, and a concurrent variant",
+         "Every generated mnemonic (by entropy, by NewMnemonic under a scripted source and under the default source) and every sentence assembled from golden words with a reference-solved checksum must be accepted by CheckMnemonic and IsMnemonicValid; leading zero bytes k=0..size are enumerated for every size and language, the longest/shortest-word sentences for every language and count, and 8 goroutines repeat the round trip concurrently in mixed languages.",
          "", "6/C02"),
  "C03": ("exploration",
-         "differential accept-set scans (all 2048 last words / all substitutions) against the reference validator + one-directional soundness oracle on defect-mutated and arbitrary strings; native go fuzzing of a structured sentence-mutation target in the thorough tier",
-         "For generated prefixes all 2048 final words are validated and the accepted set must be exactly the reference's 2^(11-n/3) solutions; all substitutions at generated positions; tens of thousands of single-defect mutants and arbitrary Unicode/byte strings must never be accepted unless the most liberal reading (strings.Fields of the NFKD form) is a valid mnemonic; IsMnemonicValid must agree with CheckMnemonic everywhere.",
+         "differential accept-set scans (all 2048 last words / all substitutions) against the reference validator + one-directional soundness oracle on defect-mutated, primed and arbitrary strings + concurrent cross-language variant; native go fuzzing of a structured sentence-mutation target in the thorough tier",
+         "For generated prefixes all 2048 final words are validated and the accepted set must be exactly the reference's 2^(11-n/3) solutions; all substitutions at generated positions; single-defect mutants (20 classes incl. empty tokens, stripped/added marks, invisible affixes, counts wrapping modulo 2^8/2^16, foreign words, separator damage) and arbitrary Unicode/byte strings, optionally right after the same text was validated under its home language, must never be accepted unless the most liberal reading (strings.Fields of the NFKD form) is a valid mnemonic; IsMnemonicValid must agree with CheckMnemonic everywhere; 12 goroutines validate valid, foreign and damaged sentences at once.",
          "A stricter-than-necessary validator (e.g. rejecting doubled spaces) is deliberately not flagged.", "6/C03"),
- "C12": ("exploration",
-         "rapid-generated goroutine plans executed one per fresh -race process; oracle = Go race detector report + reference model + in-process solo replay",
-         "Each plan releases 2..16 goroutines together in a process that has not used the package, arranged so that several make the first use of the same language, followed by warm phases; GOMAXPROCS and yields vary. Any race-detector report, panic, or result differing from the reference model or from the same call run alone is a violation.",
-         "Schedules are sampled, not enumerated; the race detector flags unsynchronised access pairs that are executed, largely independent of the interleaving taken.", "6/C12"),
- "C13": ("exploration",
-         "model-based / metamorphic testing of call histories, each executed in a fresh process and again permuted in a second fresh process",
-         "All 100 ordered pairs of first-used languages x 4 first-call patterns, and generated histories of up to 40+ calls over all entry points (unsupported languages, failing calls, re-used arguments, scripted sources, spare-capacity entropy slices) are run from a cold start; each observation must equal the history-free reference, the observation of the same call in a differently ordered process, and repeated calls must agree; caller buffers and earlier results are re-checked at the end.",
-         "", "6/C13"),
- "C14": ("exploration",
-         "robustness testing: grid over Language values and sizes, rapid-generated hostile arguments with a hang watchdog, coverage-guided native fuzzing in the thorough tier",
-         "Every entry point is called with every Language in [-300,300] and at integer boundaries, entropy lengths 0..1024 (thorough 0..4096), word counts at boundaries, sentences of 1..61 real words, invalid UTF-8, NULs, and 0.5-4 MiB inputs; rapid draws and (thorough) two native fuzz targets extend this. A recovered panic or a call exceeding 120 s is a violation.",
-         "\"Never hangs\" is decided up to the 120 s bound.", "6/C14"),
- "C15": ("exploration",
-         "generated single-defect sentences re-classified by the reference model, errors.Is / message-content oracle",
-         "Sentences with exactly one defect class (count only, checksum only, unknown token with acceptable count) are generated over all languages and sizes (counts 0..40 exhaustively) and the returned error must match ErrWordLen / ErrChecksumIncorrect / be a non-sentinel error naming an unknown token; valid sentences must give nil.",
-         "Combined defects are not asserted (the property does not order them).", "6/C15"),
  "C04": ("exploration",
-         "differential testing against a hand-written PBKDF2-HMAC-SHA512 over NFKD inputs, rapid Unicode string generators, aliasing probe on returned slices",
-         "MnemonicToSeed is compared with an independent PBKDF2/HMAC implementation on generated (mnemonic, passphrase) pairs: empty, non-mnemonics, beyond the 128-byte HMAC block, non-NFKD text, compatibility and combining sequences, passphrases beginning with combining marks, up to 1 MiB; each result must be 64 bytes and must not share memory with an earlier result.",
+         "differential testing against a hand-written PBKDF2-HMAC-SHA512 over NFKD inputs, rapid Unicode string generators with boundary classes, aliasing probe on returned slices, boundary-shift primer, concurrent variant",
+         "MnemonicToSeed is compared with an independent PBKDF2/HMAC implementation on generated (mnemonic, passphrase) pairs: empty, non-mnemonics, NFKD length exactly at / around the 64/128/256-byte HMAC boundaries, non-NFKD text, low-rune strings just under typical fast-path thresholds, highest-expansion compatibility runes, marks on both sides of the salt boundary, the (a+b,c) vs (a,b+c) concatenation twins, up to 1 MiB; each result must be 64 bytes and must not share memory with an earlier result; 16 goroutines derive different seeds at once.",
          "NFKD itself comes from golang.org/x/text (same module version as /repo); hand-stated Unicode facts are asserted in the self-test to keep this from being purely circular.", "6/C04"),
- "C10": ("exploration",
-         "metamorphic relation (NFKD-equal spellings => equal verdict) over a complete list-word sweep and rapid respellings with a self-checking inverse-NFKD substitution generator",
-         "All 10 x 2048 list words are placed in valid sentences at every word count and respelled in NFC/NFD/NFKC/NFKD/full-width with both separators; generated valid, single-defect and arbitrary strings are respelled by forms, per-token forms, NFKD-space substitution and inverse-NFKD substitution; CheckMnemonic must give the same verdict, and accept valid sentences in every spelling, under supported and unsupported languages.",
-         "The generator re-computes NFKD equality of every pair and discards (and counts) unsound variants.", "6/C10"),
- "C11": ("exploration",
-         "metamorphic relation (NFKD-equal spellings => equal seed), anchored to the reference PBKDF2 value, over a complete list-word sweep and rapid respellings",
-         "Every list word of every language is exercised inside a 24-word sentence in NFC/NFD/NFKC/NFKD/full-width with U+0020 and U+3000 separators; generated (mnemonic, passphrase) pairs are respelled by the C10 generator; seeds must be equal and equal to the reference value.",
-         "", "6/C11"),
  "C05": ("exploration",
-         "round-trip through an independent decoder + metamorphic single-bit-flip relation",
-         "Sentences returned for the pairwise table and for random structured entropies are decoded by the reference decoder and must give back the entropy; for the random cases all ENT single-bit flips must change the sentence and decode to the flipped entropy.",
+         "round-trip through an independent decoder + metamorphic single-bit-flip relation + concurrent variant",
+         "Sentences returned for the pairwise table, the extreme-length sentences and random structured entropies are decoded by the reference decoder and must give back the entropy; for the random and extreme cases all ENT single-bit flips must change the sentence and decode to the flipped entropy; the decode round trip also runs under 8 concurrent callers.",
          "", "6/C05"),
  "C06": ("fault_enumeration",
-         "complete enumeration of failure point x failure kind x fragmentation x language under a scripted randomness source (verif hook) + rapid-generated reader scripts, against the reference encoder",
-         "Every failure point k in 0..4n/3-1 for each of the five counts, three failure kinds, error alone or with bytes, three fragmentations and ten languages is injected (21 600 scripts), plus every fragmentation class of a successful delivery and tens of thousands of random scripts; the bytes delivered before the first failure decide the expected outcome exactly; the source keeps delivering after a failure so retry/fallback behaviour is visible.",
-         "The one boundary the text leaves open (error returned together with the completing bytes) accepts either outcome.", "6/C06"),
+         "complete enumeration of failure point x failure kind x fragmentation x language under a scripted randomness source (verif hook) + rapid-generated reader scripts (half after a priming validation) + a concurrent mixed-outcome variant, against the reference encoder; native fuzzing of the script generator in the thorough tier",
+         "Every failure point k in 0..4n/3-1 for each of the five counts, five failure kinds (EOF, ErrUnexpectedEOF, plain error, EAGAIN, timeout), error alone or with bytes, three fragmentations and ten languages is injected (36 000 scripts), plus every fragmentation class of a successful delivery (incl. the error arriving with the completing bytes: success required) and tens of thousands of random scripts; the bytes delivered up to the first failure decide the expected outcome exactly; the source keeps delivering after a failure so retry/fallback/latching behaviour is visible; 8 goroutines mix failing and succeeding calls on one stateless source.",
+         "", "6/C06"),
  "C07": ("exploration",
-         "fresh-process probing of source identity through the verif hook, byte-exact tee oracle, and distinctness/monobit sanity over default outputs",
-         "In freshly started processes, after generated histories of non-swapping calls, the value the swap hook returns must be crypto/rand.Reader itself; NewMnemonic called through a recording tee around that source must return exactly the reference encoding of the bytes drawn; outputs never repeat across calls or processes and no entropy bit is biased beyond 8 sigma.",
+         "fresh-process probing of source identity through the verif hook, byte-exact tee oracle, and fixed-data / repetition / bias screens over genuinely unswapped default outputs",
+         "In freshly started processes, after generated histories of non-swapping calls (incl. rejected sizes), the value the swap hook returns must be crypto/rand.Reader itself; NewMnemonic called through a recording tee around that source must return exactly the reference encoding of the bytes drawn; thousands of unswapped default outputs of mixed sizes drawn back to back must show no run of fixed bytes, no repeat and no biased bit.",
          "Randomness quality cannot be established by sampling; the claim rests on identity plus byte-exactness.", "6/C07"),
  "C08": ("exploration",
-         "complete enumeration of the finite domain 10 x 2048 against embedded golden lists, plus accept-set scans per word",
-         "The word the API emits for each of the 10 x 2048 indices is compared with golden lists (digest-pinned) and checked for the stated structural facts; for each word, sentences containing it are scanned over candidate last words and the accepted set must equal the reference solution set for that index. Exhaustive over the finite domain; the canonical lists themselves are trusted data.",
+         "complete enumeration of the finite domain 10 x 2048 against embedded golden lists (API output and source text), accept-set scans per word, shared-word cross-language sentences",
+         "The word the API emits for each of the 10 x 2048 indices, and the list declared in internal/wordlist/*.go, are compared with golden lists (digest-pinned) and checked for the stated structural facts; for each word, sentences containing it are scanned over candidate last words and the accepted set must equal the reference solution set for that index; sentences made only of words two lists share are validated alternately under both languages. Exhaustive over the finite domain; the canonical lists themselves are trusted data.",
          "The golden Portuguese list has no external digest corroboration (checked structurally only).", "6/C08"),
  "C09": ("exploration",
-         "exhaustive range enumeration of lengths and counts + rapid Int generation, with a counting randomness source installed through the verif hook",
+         "exhaustive range enumeration of lengths and counts + rapid Int generation (also as a native fuzz target in the thorough tier), with a counting randomness source installed through the verif hook",
          "Every entropy length 0..4096 (thorough 0..65536, plus MiB sizes) and every word count in [-4096,4096] (thorough +-10^6), int extremes and values congruent to valid counts modulo 2^32 are tried; success iff one of the five sizes, otherwise the sentinel error, the empty string and zero reads of the source.",
-         "", "6/C09"),
- "C17": ("exploration",
-         "round-trip testing of the real tool binary (built with the verif hook) on rapid-generated upstream files served over loopback HTTP; output parsed with go/parser and type-checked with go/types",
-         "The generator is run on ten different generated word files per case (blank lines, missing final newline, Latin+diacritics, Han, kana, Hangul, arbitrary letters/marks, up to 3000 lines), on the canonical lists, and on an alphabet file with every Unicode letter and mark; every output must parse and type-check, declare the variable lang.go consumes, and contain exactly the non-empty input lines; the canonical run must equal the committed sources and the lists the API emits (thorough: the module is rebuilt with the generated files).",
-         "Formatting is not compared; CRLF input and characters html/template escapes are outside the stated domain.", "6/C17"),
+         "With an unsupported language only the shape of the result is asserted.", "6/C09"),
+ "C10": ("exploration",
+         "metamorphic relation (NFKD-equal spellings => equal verdict) over a complete list-word sweep with compatibility twins, rapid respellings with a self-checking inverse-NFKD substitution generator, a concurrent variant; native fuzzing in the thorough tier",
+         "All 10 x 2048 list words are placed in valid sentences at every word count and respelled in NFC/NFD/NFKC/NFKD/full-width with both separators, and with up to three compatibility twins per word (CJK compatibility ideographs, Kangxi radicals, precomposed kana/Hangul/letters); generated valid, single-defect and arbitrary strings are respelled by forms, per-token forms, every NFKD-space, and inverse-NFKD substitution (optionally restricted to low runes); CheckMnemonic must give the same verdict, and accept valid sentences in every spelling, under supported and unsupported languages, also with 12 goroutines at once.",
+         "The generator re-computes NFKD equality of every pair and discards (and counts) unsound variants.", "6/C10"),
+ "C11": ("exploration",
+         "metamorphic relation (NFKD-equal spellings => equal seed), anchored to the reference PBKDF2 value, over a complete list-word sweep, rapid respellings and a concurrent variant",
+         "Every list word of every language is exercised inside a 24-word sentence in NFC/NFD/NFKC/NFKD/full-width with U+0020 and U+3000 separators; generated (mnemonic, passphrase) pairs (C04's generator) are respelled by the C10 generator; seeds must be equal and equal to the reference value, also with 16 goroutines at once.",
+         "", "6/C11"),
+ "C12": ("exploration",
+         "rapid-generated goroutine plans executed one per fresh -race process; oracle = Go race detector report + reference model + repetition stability + in-process solo replay",
+         "Each plan (optional sequential prelude with failing calls, then 2..16 goroutines released together in a process that has not used the package, arranged so that several make the first use of the same language, followed by warm phases; GOMAXPROCS, yields and per-call repetition vary) plus fixed cold-start plans per language and hammer plans (8 goroutines x thousands of cheap calls with different, partly non-NFKD, arguments). Any race-detector report, panic, unstable repetition, invalid default-source output, or result differing from the reference model or from the same call run alone is a violation.",
+         "Schedules are sampled, not enumerated; the race detector flags unsynchronised access pairs that are executed, largely independent of the interleaving taken.", "6/C12"),
+ "C13": ("exploration",
+         "model-based / metamorphic testing of call histories, each executed in a fresh process and again permuted in a second fresh process, plus an in-process machine with process-lifetime consistency",
+         "All 100 ordered pairs of first-used languages x 4 first-call patterns, generated histories of up to 40+ calls (unsupported languages, failing calls, re-used arguments, scripted sources, spare-capacity entropy slices, wiped seeds) run from a cold start, and thousands of long warm in-process histories; each observation must equal the history-free reference, the observation of the same call in a differently ordered process, and repeated calls must agree; caller buffers, returned strings, seeds and error values are re-checked at the end.",
+         "", "6/C13"),
+ "C14": ("exploration",
+         "robustness testing: grid over Language values, sizes, block-edge code points and extreme-length entropies, rapid-generated hostile arguments with a hang watchdog, coverage-guided native fuzzing in the thorough tier",
+         "Every entry point is called with every Language in [-300,300] and at integer boundaries, entropy lengths 0..1024 (thorough 0..4096), word counts at boundaries, sentences of 1..61 real words, invalid UTF-8, NULs, code points at the edges of the scripts' Unicode blocks, extreme-length entropies and 0.5-4 MiB inputs; rapid draws and (thorough) two native fuzz targets extend this. A recovered panic or a call exceeding 120 s is a violation.",
+         "\"Never hangs\" is decided up to the 120 s bound.", "6/C14"),
+ "C15": ("exploration",
+         "generated single-defect sentences re-classified by the reference model, errors.Is / message-content oracle, primer and after-call probes, concurrent variant; native fuzzing in the thorough tier",
+         "Sentences with exactly one defect class (count only incl. counts wrapping modulo 2^8/2^16, checksum only, unknown token with acceptable count) over all languages and sizes, a quarter of them written with compatibility spaces, some judged right after the same text was judged under another language (incl. shared-word sentences); the returned error must match ErrWordLen / ErrChecksumIncorrect / be a non-sentinel error naming an unknown token and must not change when later calls fail; valid sentences must give nil; 10 goroutines repeat this concurrently.",
+         "Combined defects are not asserted (the property does not order them).", "6/C15"),
  "C16": ("exploration",
-         "exhaustive range enumeration + rapid Int64 generation against a name table keyed by the declared constants",
-         "Every Language value in [-100000,100000] (thorough: [-2^24,2^24]) plus all integer-width boundaries and random int64 draws is printed and compared with the declared identifier / \"Language(N)\"; panics are caught. The finite part people can reach by mistake is exhaustive; the rest of int64 is sampled.",
+         "exhaustive range enumeration + rapid Int64 generation against a name table keyed by the declared constants, retention / revisit probes, concurrent variant",
+         "Every Language value in [-100000,100000] (thorough: [-2^24,2^24]) plus all integer-width boundaries and random int64 draws is printed and compared with the declared identifier / \"Language(N)\"; the returned string is re-read after other values were printed, values printed thousands of distinct values ago are revisited, and 8 goroutines print different values at once; panics are caught.",
          "", "6/C16"),
+ "C17": ("exploration",
+         "round-trip testing of the real tool binary (built with the verif hook) on rapid-generated upstream files served over loopback HTTP, with re-runs over existing output, a cut download and TMPDIR on another filesystem; output parsed with go/parser and type-checked with go/types",
+         "The generator is run on ten different generated word files per case (blank lines, missing final newline, Latin+diacritics, Han, kana, Hangul, arbitrary letters/marks incl. supplementary planes, up to 3000 lines), on the canonical lists, and on an alphabet file with every Unicode letter and mark; every output must parse and type-check, declare the variable lang.go consumes, and contain exactly the non-empty input lines; the canonical run must equal the committed sources and the lists the API emits (thorough: the module is rebuilt with the generated files).",
+         "Formatting is not compared; CRLF input and characters html/template escapes are outside the stated domain; a run in which the injected download fault makes the tool abort is not judged.", "6/C17"),
 }
 ALL = ["C%02d" % i for i in range(1, 18)]
 
